@@ -102,7 +102,7 @@ func (s *sender) run(ctx context.Context) error {
 			case types.PACKET_ERR:
 				return errors.Errorf("error from receiver: %s", p.Data)
 			case types.PACKET_REQ:
-				if err := s.queue(p.ID); err != nil {
+				if err := s.queue(ctx, p.ID); err != nil {
 					return err
 				}
 			case types.PACKET_FIN:
@@ -123,7 +123,7 @@ func (s *sender) updateProgress(size int, last bool) {
 	}
 }
 
-func (s *sender) queue(id uint32) error {
+func (s *sender) queue(ctx context.Context, id uint32) error {
 	s.mu.Lock()
 	p, ok := s.files[id]
 	if !ok {
@@ -132,7 +132,12 @@ func (s *sender) queue(id uint32) error {
 	}
 	delete(s.files, id)
 	s.mu.Unlock()
-	s.sendpipeline <- &sendHandle{id, p}
+	select {
+	case s.sendpipeline <- &sendHandle{id, p}:
+	case <-ctx.Done():
+		// the workers are gone: nobody will ever drain a full pipeline
+		return ctx.Err()
+	}
 	return nil
 }
 
